@@ -182,4 +182,34 @@ def test_persistent_tape_menu_and_reentry():
     finally:
         c17.G.AdjointTape.__enter__ = orig
     assert c17.run(h).failure is None
-    assert len(c17.reentry_histories("quick")) == 11 * 2 * 111 * 2
+    assert len(c17.reentry_histories("quick")) == 12 * 2 * 133 * 2  # (1+11 stacks X) x 2 ways out x (1+11+121 stacks Y) x 2 styles
+
+
+def test_function_style_partial_interpretation():
+    # C is partial: layered over the current top like A and B, innermost sentinel rule wins, the rest falls through
+    s, how = ref.enter(ref.enter(ref.BASE, "lazy")[0], "C")
+    assert how == "push" and s[-1] == ("prio", ("C", "lazy_base", "reflect"))
+    assert ref.predict(s[-1]) == ("Binary", "Reduce", "Binary", "SENTC") and ref.name(s[-1]) == "userC/lazy/reflect"
+    s, _ = ref.enter(s, "A")
+    assert ref.predict(s[-1])[3] == "SENT"
+    s, _ = ref.enter(s, "B")
+    s, _ = ref.enter(s, "C")
+    assert s[-1][1][:3] == ("C", "B", "A") and ref.predict(s[-1])[3] == "SENTC" and ref.kind(s[-1]) == "lazy"
+
+    from fv.props import c17
+
+    c17._setup(0)
+    h = (("with", "normalize"), ("deco", "C"), ("probe",), ("with", "A"), ("probe",), ("raise", 2), ("probe",))
+    x = c17.run(h, record=True)
+    assert x.failure is None, x.failure.message
+    assert x.obs[2] == "probe:Contraction,Contraction,Contraction,SENTC"
+    assert x.obs[4] == "probe:Contraction,Contraction,Contraction,SENT"
+    assert x.trace[1][0] == "reflect;eager;normalize;P[C,normalize_base,reflect]"
+    # a function-style interpretation that is pushed bare (treated as total) is seen at entry
+    c17.G.C.is_total = True
+    try:
+        x = c17.run(h)
+        assert x.failure is not None and x.failure.site == "Interpretation.__enter__" and x.failure.what == "top-type"
+    finally:
+        del c17.G.C.is_total
+    assert c17.run(h).failure is None
